@@ -121,6 +121,7 @@ func runC14(c *RunCtx) {
 	t := c.T
 	ntasks := 1 + t.Intn(4)
 	var shared [][]byte // data other tasks may reuse
+	jumbo := false
 	genData := func() ([]byte, string) {
 		if len(shared) > 0 && t.Intn(4) == 0 {
 			d := shared[t.Intn(len(shared))]
@@ -148,8 +149,17 @@ func runC14(c *RunCtx) {
 			desc = fmt.Sprintf("zeros(%d)", n)
 		case k == 5 && c.Thorough && t.Chance(1, 60):
 			n := 8_450_000 + t.Intn(100_000)
+			if t.Intn(3) == 0 {
+				n = 16_900_000 + t.Intn(9_000_000) // several accumulator ranges long
+			}
 			d = bytes.Repeat([]byte{0xFF}, n)
-			desc = fmt.Sprintf("ff(%d)", n)
+			// a few arbitrary bytes in front: the running sum enters the long 0xFF stretch with
+			// an arbitrary residue
+			for i, x := range noise(t, t.Intn(9)) {
+				d[i] = x
+			}
+			desc = fmt.Sprintf("ff(%d) behind %x", n, d[:8])
+			jumbo = true
 			c.Probe("jumbo-input")
 		case k == 5 && t.Chance(1, 30):
 			// large inputs: services that treat big buffers differently (block-wise paths)
@@ -178,7 +188,11 @@ func runC14(c *RunCtx) {
 		nops := 1 + t.Intn(5)
 		for j := 0; j < nops; j++ {
 			op := &calcOp{algo: t.Intn(len(sumAlgos))}
+			jumbo = false
 			op.data, op.desc = genData()
+			if jumbo || len(op.data) > 4<<20 {
+				op.algo = 2 + t.Intn(2) // byte-sum services only: the bitwise CRC-16 over tens of MB is minutes under the race detector
+			}
 			op.lead = []int{0, 0, 1, 5, 64, 300}[t.Intn(6)]
 			op.slack = []int{0, 1, 64, 4096}[t.Intn(4)]
 			op.twice = t.Intn(3) == 0
